@@ -118,7 +118,7 @@ def run(ctx, rep):
             t = type_node(facts, "node", kind)
             vals = {"imports": sym_ref("imports"), "declared_parcelables": sym_ref("declared_parcelables"), "defined": sym_ref("defined"),
                     "diagnostics": Opaque("diagnostics"), "resolved": Opaque("resolved")}
-            cp, _ = run_closure(facts, clos[0], vals, [Ref(Cell(t), True)], opaque_fns=[c05.RT])
+            cp, _ = run_closure(facts, clos[0], vals, [Ref(Cell(t), True)], opaque_fns=[c05.RT], pure_fns=[c05.RT])
             ins = []
             for p in cp:
                 ins.append([e[2][1] for e in p.effects if e[0] == "call" and e[1].endswith("::insert") and base_label(e[2][0]) == "resolved"])
